@@ -16,6 +16,7 @@ VARIANTS = {
     "localonly": (512, 5120, 13,  6,   10,   4,    12,   20480,  True),
     "wbuf":      (512, 700,  13,  6,   4,    4,    12,   20480,  False),
     "wsmall":    (160, 256,  13,  6,   3,    2,    12,   20480,  False),
+    "big":       (70000, 140000, 13, 6, 10,  4,    12,   20480,  False),
 }
 
 SIM_SYMS = """accept accept4 bind calloc close daemon epoll_create epoll_create1 epoll_ctl epoll_wait epoll_pwait
